@@ -401,7 +401,7 @@ func Execute(cfg Config, prog []Op, seed int64) (run Run, err error) {
 				stmRef, stmID, stmBody = [2]int{op.N, op.G}, op.V, nil
 			}
 		case "OpenWhileOpen":
-			_, cerr = w.OpenStream(w.Alloc(), pdf.Dict{})
+			_, cerr = w.OpenStream(pdf.NewReference(4000, 0), pdf.Dict{}) // fails before anything is recorded
 			if cerr == nil {
 				return run, errors.New("OpenStream while a stream is open succeeded")
 			}
